@@ -128,4 +128,3 @@ func shardSeedNote() string {
 	i, n := sim.Shard()
 	return fmt.Sprintf("shard %d/%d", i, n)
 }
-
